@@ -2,6 +2,7 @@
 CONSTANTS
   MaxPath = 2
   NFlowsA = 3
+  SymLits <- SymA
   MaxFlows = 3
   FlowDomain <- FlowsA
   TxnDomain <- TxnsA
